@@ -11,6 +11,7 @@ path = V + '/contracts/shape.lock.json'
 lock = json.load(open(path)) if os.path.exists(path) else {}
 tpath = V + '/contracts/trusted_text.lock.json'
 tlock = json.load(open(tpath)) if os.path.exists(tpath) else dict(assumed_functions={}, files={})
+tlock.setdefault('known_functions', {})
 for u in units:
     cfg = load_unit_cfg(u); cfg['crate_name'] = 'unit'; cfg['shape_lock'] = None
     text, meta = EX.build_unit(cfg)
@@ -19,6 +20,7 @@ for u in units:
             lock[f['key']] = f['shape']
         if f['mode'] == 'assumed' and 'norm_sha' in f and f.get('contract_file') and 'E9' not in f.get('rules', []):
             tlock['assumed_functions'][f['key']] = f['norm_sha']
+    tlock['known_functions'][u] = sorted(f['key'] for f in meta['functions'])
     for rel in cfg.get('trusted_files', {}):
         tlock['files'][rel] = EX.norm_sha(open(os.path.join(os.environ.get('VERIF_REPO', '/repo'), rel)).read())
 json.dump(lock, open(path, 'w'), indent=0, sort_keys=True)
